@@ -60,10 +60,13 @@ SEPS = list("/@?#&=%+:,. ")
 ODD = ['"', "<", ">", "`", "{", "}", "\\", "|", "^", "[", "]", "~", "!", "$", "'", "(", ")", "*", ";", "_", "-"]
 CTRL = ["\x00", "\x01", "\t", "\n", "\x1f", "\x7f"]
 ALNUM = list("aAzZbBmM019")
-NONASCII = ["é", "ß", "Σ", "€", "😀", "ǅ", "ǆ", "İ", "\u212a", "ſ", "ı", "Ａ", "ᾈ", "À", "ẞ", "ﬀ", "ͅ", "σ", "ς"]
+NONASCII = ["é", "ß", "Σ", "€", "😀", "ǅ", "ǆ", "İ", "\u212a", "ſ", "ı", "Ａ", "ᾈ", "À", "ẞ", "ﬀ", "ͅ", "σ", "ς", "\u202e", "\u2066", "\u200b", "\ufeff", "\u0430", "\u00ad", "\u212b", "\u2460", "\u0301", "\u030a", "\uff76", "\uff9e", "\u1e9b", "\u0323", "\u00a0", "\u2028"]
 # what other escaping layers leave behind (XML / HTML entities, JSON, form encoding, double encoding): plain text to a PURL
 ENTITIES = ["&amp;", "&lt;", "&gt;", "&quot;", "&#38;", "&#x2F;", "&amp;amp;", "\\u0026", "\\/", "%26amp%3B", "%2526", "&amp", "amp;", "&#47;", "\\x2f", "%u002F"]
-TEXTS = ["..", ".", "...", "....", "%2F", "%2f", "%41", "%", "%%", "%zz", "pkg:", "a/b", "a=b&c=d", "x@1?y#z"] + ENTITIES
+# sequences a Unicode normalisation (NFC / NFKC), a homoglyph or bidi filter, or a trimming of "invisible" characters would change
+NORMALISABLE = ["e\u0301", "A\u030a", "\u212b", "\ufb01", "\uff21", "\u2460", "\uff76\uff9e", "\u1e9b\u0323", "\u0041\u0300\u0301", "a\u200bb", "\ufeffa", "a\u00adb",
+                "\u202eabc", "p\u0430ypal", "x\u00a0y", " a", "a ", "\ta", "a\u0000", "\u0000", "a\u2028b", "I\u0307", "\u03a3\u03c2", "\u1100\u1161"]
+TEXTS = ["..", ".", "...", "....", "%2F", "%2f", "%41", "%", "%%", "%zz", "pkg:", "a/b", "a=b&c=d", "x@1?y#z"] + ENTITIES + NORMALISABLE
 ALPHABET = SEPS * 2 + ODD + CTRL + ALNUM * 3 + NONASCII
 
 
